@@ -196,6 +196,31 @@ def check_history_independence(ctx, rep, RULE):
                key="table-dependent-store/no-writers")
 
 
+def emits_arg(ctx, owner, call, pred):
+    """like emits_name, for an argument *expression* selected by pred(node): ``X.append(<expr>)`` or a helper call whose
+    parameter receiving <expr> is appended unconditionally"""
+    if isinstance(call.func, ast.Attribute) and call.func.attr == "append":
+        return bool(call.args) and pred(call.args[0])
+    site = [s for s in ctx.cg.sites(owner) if s.node is call]
+    if not site or not site[0].callees:
+        return False
+    for g in site[0].callees:
+        recv = None
+        for i, a in enumerate(call.args):
+            if pred(a) and i < len(g.posparams):
+                recv = g.posparams[i]
+        for kw in call.keywords:
+            if pred(kw.value) and kw.arg in g.params:
+                recv = kw.arg
+        if recv is None:
+            return False
+        if not any(isinstance(st, ast.Expr) and isinstance(st.value, ast.Call) and isinstance(st.value.func, ast.Attribute)
+                   and st.value.func.attr == "append" and st.value.args and isinstance(st.value.args[0], ast.Name)
+                   and st.value.args[0].id == recv for st in g.node.body):
+            return False
+    return True
+
+
 def emits_name(ctx, owner, call, name):
     """True when ``call`` (a call expression in ``owner``) appends the value of local ``name`` to a list:
     either ``X.append(name)`` itself, or a call of a helper whose receiving parameter is appended
@@ -257,3 +282,54 @@ def check_table_owned(ctx, rep, RULE):
         raise AnalysisError("the setter does not rebind the table (anchor lost)")
     g = ctx.api("get_semantic_constraints")
     check_fresh_return(ctx, eff, rep, g, RULE, "get_semantic_constraints")
+
+
+def fragment_printer(ctx):
+    """(encoder core, fragment printer): the function of the encoder's module that the core calls for every root and that
+    walks the graph (a `while` loop or self-recursion)"""
+    encf = core_of(ctx, "encoder", "smiles_to_mol")
+    cands = []
+    for s in ctx.cg.sites(encf):
+        for g in s.callees:
+            if g.module is encf.module and g.cls is None and g is not encf:
+                loops = any(isinstance(n, ast.While) for n in own_nodes(g.node))
+                rec = any(g in s2.callees for s2 in ctx.cg.sites(g))
+                if (loops or rec) and g not in cands:
+                    cands.append(g)
+    if len(cands) != 1:
+        raise AnalysisError("fragment printer of the encoder not identified (%d candidates)" % len(cands))
+    return encf, cands[0]
+
+
+def token_templates(ctx, frag, depth=2):
+    """constant token templates ('[{}Ring{}]' as str.format or f-string) built in the fragment printer or in the
+    same-module helpers it calls: [(owner function, node, template with {} placeholders, argument expressions)]"""
+    out, seen = [], set()
+
+    def visit(g, d):
+        if g.qual in seen:
+            return
+        seen.add(g.qual)
+        for n in own_nodes(g.node):
+            if isinstance(n, ast.Call) and isinstance(n.func, ast.Attribute) and n.func.attr == "format" \
+                    and isinstance(n.func.value, ast.Constant) and isinstance(n.func.value.value, str):
+                out.append((g, n, n.func.value.value, list(n.args)))
+            elif isinstance(n, ast.JoinedStr):
+                tmpl, args, ok = "", [], True
+                for v in n.values:
+                    if isinstance(v, ast.Constant):
+                        tmpl += str(v.value).replace("{", "{{").replace("}", "}}")
+                    elif isinstance(v, ast.FormattedValue) and v.format_spec is None and v.conversion == -1:
+                        tmpl += "{}"
+                        args.append(v.value)
+                    else:
+                        ok = False
+                if ok and args:
+                    out.append((g, n, tmpl, args))
+        if d > 0:
+            for s in ctx.cg.sites(g):
+                for h in s.callees:
+                    if h.module is frag.module and h.cls is None and h is not frag:
+                        visit(h, d - 1)
+    visit(frag, depth)
+    return out
